@@ -1094,8 +1094,22 @@ class Program:
             if s.trait and (s.res is None or s.res == s.callee or s.resk == 'virtual'):
                 # unresolved trait call: all local impls of that method
                 m = s.callee.split('::')[-1]
-                for g in self.impls_of_trait_method(strip_generics(s.trait), m):
+                cands = self.impls_of_trait_method(strip_generics(s.trait), m)
+                # when the Self type of the call is a concrete type, only its own impl can be the callee
+                st = strip_generics(s.targs[0].lstrip('&').replace('mut ', '')) if s.targs else ''
+                if '::' in st and not st.startswith('<'):
+                    exact = [g for g in cands if strip_generics((g.self_ty or '').lstrip('&')) == st]
+                    cands = exact
+                for g in cands:
                     out.add(g.key)
+            # formatting machinery: Argument::new_display::<T>(&x) / x.to_string() call <T as Display>::fmt through
+            # a function pointer created inside std
+            last = n.split('::')[-1]
+            if last in ('new_display', 'new_debug', 'to_string', 'new_lower_hex', 'new_upper_hex') and s.targs:
+                tr = 'std::fmt::Debug' if last == 'new_debug' else 'std::fmt::Display'
+                ty = strip_generics(s.targs[0].lstrip('&').replace('mut ', ''))
+                for g in self.fmt_impls().get((tr, ty), []):
+                    out.add(g)
         for (_, _, ck) in f.closures_created():
             if ck in self.fns:
                 out.add(ck)
@@ -1117,6 +1131,17 @@ class Program:
                             out.add(k2)
         c[f.key] = out
         return out
+
+    def fmt_impls(self):
+        c = getattr(self, '_fmt', None)
+        if c is None:
+            c = self._fmt = {}
+            for g in self.fn_list:
+                if g.name == 'fmt' and g.trait and g.kind == 'assocfn':
+                    tr = strip_generics(g.trait)
+                    ty = strip_generics((g.self_ty or '').lstrip('&'))
+                    c.setdefault((tr, ty), []).append(g.key)
+        return c
 
     def callers_of(self, key):
         if self._callers is None:
